@@ -2387,8 +2387,13 @@ class WBEMConnection:  # pylint: disable=too-many-instance-attributes
 
         # Create parameter list
 
-        plist = [_cim_xml.EXPPARAMVALUE(x[0], tocimxml(x[1]))
-                 for x in params.items() if x[1] is not None]
+        # Note: The child of EXPPARAMVALUE for an instance is INSTANCE, i.e.
+        # without a path, even if the instance has one.
+        plist = [_cim_xml.EXPPARAMVALUE(
+            x[0],
+            x[1].tocimxml(ignore_path=True) if isinstance(x[1], CIMInstance)
+            else tocimxml(x[1]))
+            for x in params.items() if x[1] is not None]
 
         # Build XML request
 
